@@ -45,8 +45,11 @@ def trace(case, with_last=True):
                 pt, r = s.step()
                 out["points"].append([repr(x) for x in pt] if isinstance(pt, list) else repr(pt))
             if with_last:
-                lp = s.last_point()
-                out["last"] = [repr(x) for x in lp] if isinstance(lp, list) else repr(lp)
+                try:
+                    lp = s.last_point()
+                    out["last"] = [repr(x) for x in lp] if isinstance(lp, list) else repr(lp)
+                except Exception as e:  # noqa: BLE001 - e.g. open finding D11: compared as an outcome
+                    out["last"] = "raises:" + type(e).__name__
         except Exception as e:  # noqa: BLE001
             out["error"] = "%s@%d" % (type(e).__name__, len(out["points"]) + 1)
         out["domain"] = s.domain_unchanged()
